@@ -121,6 +121,18 @@ class _Owned:
     def changed(self):
         return sum(1 for b, snap in self.items if bytes(b) != snap)
 
+    def handed_out(self, b):
+        """an octet string the library returned (pack result, parts of a generic view): later calls on the
+        object must not change it"""
+        if not hasattr(self, "out"):
+            self.out = []
+        if isinstance(b, (bytearray, memoryview)):
+            self.out.append((b, bytes(b)))
+        return b
+
+    def out_changed(self):
+        return sum(1 for b, snap in getattr(self, "out", []) if bytes(b) != snap)
+
 
 def _make(p, app, owned):
     path, service, subservice, apid, count, source_id, ack, kind, ptype, shf, flags, version, dlen = p
@@ -195,14 +207,17 @@ def _set_hdr(t, f, v, route):
 def _hist_op(st, o, owned):
     """one operation on the live object st['t']; returns the observation lists"""
     t, k = st["t"], o[0]
-    if k == 0: return [list(t.pack())]
-    if k == 1: return [list(t.pack(recalc_crc=False))]
+    if k == 0: return [list(owned.handed_out(t.pack()))]
+    if k == 1: return [list(owned.handed_out(t.pack(recalc_crc=False)))]
     if k == 2: t.calc_crc(); return []
     if k == 3: t.app_data = bytes(o[1:]); return []
     if k == 4: _set_hdr(t, 5, o[1], 0); return []
     if k == 5: _set_hdr(t, 3, o[1], 0); return []
     if k == 6: t.source_id = o[1]; return []
-    if k == 7: return [list(t.to_space_packet().pack())]
+    if k == 7:
+        v = t.to_space_packet()
+        owned.handed_out(v.sec_header); owned.handed_out(v.user_data)
+        return [list(owned.handed_out(v.pack()))]
     if k == 8: return _inspect(t)
     if k == 9: t.app_data = owned.give(o[1:], 1); return []
     if k == 10:
@@ -245,7 +260,7 @@ def _hist(a):
             out.append([1, _canon(e)])
             continue
         out.append([0]); out.extend(r)
-    out.append([owned.changed()])
+    out.append([owned.changed(), owned.out_changed()])
     return out
 
 
@@ -436,8 +451,10 @@ def _hist_oracle(a, ires):
         for nm, x, y in zip(names, out, exp):
             if x != y:
                 return ("C11/PusTc.history/state-differs", "%s: %s reads %s, the operations so far prescribe %s" % (where, nm, x[:24], y[:24]))
-    if obs[-1] != [0]:
+    if obs[-1][0] != 0:
         return ("C11/PusTc/caller-buffer-modified", "%d bytearray(s) owned by the caller were changed by the library during %s" % (obs[-1][0], [x[:6] for x in ops]))
+    if obs[-1][1] != 0:
+        return ("C11/PusTc/returned-octets-changed-later", "%d octet string(s) returned by pack() / to_space_packet() changed when the object was used again: %s" % (obs[-1][1], [x[:6] for x in ops]))
     return None
 
 
@@ -649,7 +666,25 @@ def _all_mutations(rng, cur_len):
             out.append([31, f, rng.randrange(_RANGES[_SEC_KEYS[f]]), route])
     out.append([24, rng.randrange(256), rng.randrange(256), rng.randrange(65536), rng.randrange(16)])
     out.append([23, 1, rng.randrange(2048), rng.randrange(16384), cur_len + 6, 1, rng.randrange(4), rng.randrange(8)])
+    out.append([23, 1, 2048, 1, cur_len + 6, 1, 3, 0])          # refused: the object must be unchanged afterwards
+    out.append([23, 1, 1, 16384, cur_len + 6, 1, 3, 0])
     return out
+
+
+def _directed(rng, d):
+    """operation sequences a cache or short-cut in a setter would get wrong"""
+    n = len(d)
+    return [
+        [[3] + d, [30, 6, n + 9, 0], [3] + d],                 # same value again after the length field was disturbed
+        [[9] + d, [30, 6, 0, 0], [10]],                        # same buffer object assigned again, nothing appended
+        [[9] + d, [7], [10, 1], [7], [10, 2], [0]],            # in-place growth of the caller's buffer between views
+        [[3] + d, [0], [3] + d, [1]],                          # identical value: the cached CRC is still right
+        [[0], [30, 5, 1, 1], [30, 5, 1, 1], [1], [7]],
+        [[7], [7], [7], [0]],
+        [[2], [31, 2, 513, 1], [7], [31, 2, 513, 0], [7]],
+        [[27, 1], [7], [8], [27, 0], [7], [10, 5], [7]],       # decoded from a bytearray / from bytes, then used
+        [[23, 1, 2048, 0, 6, 1, 3, 0], [8], [0]],              # refused replacement, then all views
+    ]
 
 
 def hardening_streams(tier, rng):
@@ -703,10 +738,15 @@ def hardening_streams(tier, rng):
         for path, kind in ((0, 1), (1, 1), (2, 0), (3, 0), (3, 1)) + (((0, 0),) if big else ()):
             for pr in primes:
                 base = _hist_params(rng, path=path, kind=kind, n=rng.randrange(0, 9))
-                for m in _all_mutations(rng, len(base[1])) + [None]:
+                muts = _all_mutations(rng, len(base[1]))
+                for m in muts + [None]:
                     for v in ([7], [0], [1], [26]):
                         ops = [list(x) for x in pr] + ([list(m)] if m is not None else []) + [v, [8]]
                         cases.append((520, base + ops))
+                for m in muts:                                   # the same assignment twice
+                    cases.append((520, base + [list(x) for x in pr] + [list(m), list(m), [7], [8]]))
+                for seq in _directed(rng, pc.rbytes(rng, rng.choice([0, 1, 5]))):
+                    cases.append((520, base + [list(x) for x in pr] + seq))
     yield "live_object_every_route_then_views", "exact", cases
     # D. random histories up to 10 operations over all construction paths, bytes and bytearray payloads
     cases = []
@@ -737,6 +777,10 @@ def hardening_streams(tier, rng):
             base = _hist_params(rng, path=rng.choice([0, 1, 3]), n=rng.randrange(0, 4))
             d = pc.rbytes(rng, n)
             cases.append((520, base + [[7], [k] + d, [7], [8], [0], [10, 1, 2], [7], [8]]))
+    for n in sizes:                                              # decoded from a receive buffer of every size, buffer reused
+        if n >= 250:
+            cases.append((520, _hist_params(rng, path=3, kind=1, n=n) + [[8], [7], [8]]))
+            cases.append((520, _hist_params(rng, path=rng.choice([0, 1, 2]), kind=1, n=n) + [[7], [8], [7]]))
     for n in ((65520, 65527) if big else (65527,)):
         base = _hist_params(rng, path=0, kind=1, n=2)
         cases.append((520, base + [[9] + [0xFF] * n, [7], [10, 1, 2], [8]]))
@@ -760,10 +804,17 @@ def _force_crc(fields, app, target):
     raise RuntimeError("no preimage")
 
 
+_SPEC_SIZES = set(NEAR_256) | {4096, 65529}
+
+
 def oracle_spec(case, ires):
     op, a = case
     if op in (501, 504, 505, 509) and valid_args(a):
-        return [(550, a[:2])]
+        n = len(a[1])
+        # the Coq transcription of the layout is cross-checked against the oracle's on every small packet and
+        # on the sizes around the 256-multiples; elsewhere in the size sweep it would only repeat the CRC
+        if n <= 300 or n in _SPEC_SIZES:
+            return [(550, a[:2])]
     return []
 
 
